@@ -1,7 +1,7 @@
 (* Executable model of handler results and success/failure/exception feedback in
    circuits/core (DESIGN.md §6 C04; the KValues layer + the plain-generator subset of KTasks),
    for the REPAIRED code (fixes/C04_success_after_failure.patch, fixes/C04_generator_raise_finishes.patch,
-   fixes/C04_nested_value_flags.patch):
+   fixes/C04_nested_value_flags.patch, fixes/C04_list_result.patch):
 
      Value.setValue / inform      None / single / list accumulation, result flag, promise, value_changed
      Manager._dispatcher          per-handler try/except, errors flag, <name>_failure + exception events,
@@ -67,15 +67,22 @@ Inductive entry :=
 | LDD (k : dkind) (e c : nat).    (* derived event (k, e) seen by the observer of component c *)
 
 (* ---- Value *)
-Record value := { vv : pyval; vresult : bool; verrors : bool; vpromise : bool }.
-Definition vinit : value := {| vv := PNone; vresult := false; verrors := false; vpromise := false |}.
+Record value := { vv : pyval; vcoll : bool; vresult : bool; verrors : bool; vpromise : bool }.
+Definition vinit : value :=
+  {| vv := PNone; vcoll := false; vresult := false; verrors := false; vpromise := false |}.
 
-(* Value.setValue on the _value attribute (repaired, fixes/C04_nested_value_flags.patch):
-   `if isinstance(self._value, list): append  elif self._value is not None: self._value = [self._value, value]
-    else: self._value = value` — whether something has been collected no longer depends on the
-   `result` flag (which a nested Value resets) *)
-Definition set_py (cur : pyval) (x : pyval) : pyval :=
-  match cur with PNone => x | PList l => PList (l ++ [x]) | y => PList [y; x] end.
+(* Value.setValue on (_value, _collecting) (repaired, fixes/C04_nested_value_flags.patch and
+   fixes/C04_list_result.patch):
+   `if self._collecting: self._value.append(value)
+    elif self._value is not None: self._value = [self._value, value]; self._collecting = True
+    else: self._value = value`.
+   [vcoll] says that _value is the list of several results, so a handler's own list result is no longer
+   taken for it.  (`_collecting` is only ever set together with a list _value; the first branch on a
+   non-list cannot occur and is modelled like the second.) *)
+Definition set_slot (c : pyval * bool) (x : pyval) : pyval * bool :=
+  let '(cur, coll) := c in
+  if coll then (match cur with PList l => PList (l ++ [x]) | y => PList [y; x] end, true)
+  else match cur with PNone => (x, false) | y => (PList [y; x], true) end.
 
 Record task := { tev : nat; thd : nat; tk : nat }.
 
@@ -163,7 +170,8 @@ Definition inform (force : bool) (e : nat) (s : st) : st :=
    the walk up the parent chain *)
 Definition set_value_local (e : nat) (x : pyval) (s : st) : st :=
   let v := val s e in
-  let s1 := set_val e {| vv := set_py (vv v) x; vresult := vresult v || negb (is_none x);
+  let s1 := set_val e {| vv := fst (set_slot (vv v, vcoll v) x); vcoll := snd (set_slot (vv v, vcoll v) x);
+                         vresult := vresult v || negb (is_none x);
                          verrors := verrors v; vpromise := vpromise v |} s in
   if is_none x then s1 else inform false e s1.
 
@@ -172,7 +180,7 @@ Definition set_par (d p : nat) (s : st) : st :=
      waiting := waiting s; phase := phase s; queue := queue s; tasks := tasks s; log := log s |}.
 
 Definition with_flags (v : value) (r er : bool) : value :=
-  {| vv := vv v; vresult := r; verrors := er; vpromise := vpromise v |}.
+  {| vv := vv v; vcoll := vcoll v; vresult := r; verrors := er; vpromise := vpromise v |}.
 
 (* the tail of `update(o, v)`: `if o.parent is not o: o.parent.errors = o.errors; o.parent.result = o.result;
    update(o.parent, v)` — up the chain of parent Values (a parent is always an older event: fuel S o) *)
@@ -203,18 +211,19 @@ Definition set_value (e : nat) (x : pyval) (s : st) : st :=
       let s0 := set_par d e s in
       let v := val s0 e in
       propagate (S e) e x
-        (set_val e {| vv := set_py (vv v) x; vresult := vresult (val s0 d);
+        (set_val e {| vv := fst (set_slot (vv v, vcoll v) x); vcoll := snd (set_slot (vv v, vcoll v) x);
+                      vresult := vresult (val s0 d);
                       verrors := verrors v || verrors (val s0 d); vpromise := vpromise v |} s0)
   | _ => propagate (S e) e x (set_value_local e x s)
   end.
 
 Definition set_errors (e : nat) (s : st) : st :=
   let v := val s e in
-  set_val e {| vv := vv v; vresult := vresult v; verrors := true; vpromise := vpromise v |} s.
+  set_val e {| vv := vv v; vcoll := vcoll v; vresult := vresult v; verrors := true; vpromise := vpromise v |} s.
 
 Definition set_promise (e : nat) (s : st) : st :=
   let v := val s e in
-  set_val e {| vv := vv v; vresult := vresult v; verrors := verrors v; vpromise := true |} s.
+  set_val e {| vv := vv v; vcoll := vcoll v; vresult := vresult v; verrors := verrors v; vpromise := true |} s.
 
 (* `if event.failure: fire(<name>_failure)` ; `fire(exception(...))` *)
 Definition raise_feedback (e : nat) (s : st) : st :=
@@ -450,12 +459,12 @@ Definition handler_finished (lg : list entry) (e i : nat) (h : hdl) : Prop :=
   end.
 
 (* what Value.setValue makes of a sequence of non-None results, starting from a fresh Value *)
-Fixpoint accum_from (cur : pyval) (l : list pyval) : pyval :=
+Fixpoint accum_from (c : pyval * bool) (l : list pyval) : pyval * bool :=
   match l with
-  | [] => cur
-  | x :: r => accum_from (set_py cur x) r
+  | [] => c
+  | x :: r => accum_from (set_slot c x) r
   end.
-Definition accum (l : list pyval) : pyval := accum_from PNone l.
+Definition accum (l : list pyval) : pyval := fst (accum_from (PNone, false) l).
 
 (* the handler-activity part of a log *)
 Definition is_h (x : entry) : bool := match x with LH _ _ | LG _ _ _ => true | _ => false end.
